@@ -1,5 +1,5 @@
 (* C11 — shape of the generated cases and the two executable verdicts. No proofs. *)
-From C11 Require Import Model ModelDoc ModelMulti ModelLex.
+From C11 Require Import Model ModelDoc ModelMulti ModelLex ModelWire.
 
 Definition bytes_eqb := list_eqb_N.
 
@@ -110,6 +110,16 @@ Definition obs_is_term (pos : rpos) (o : pobs) (tok : list N) : bool :=
 
 Definition m_index_types := index_types go_is_letter go_is_number go_to_lower.
 
+(* the binary's wiring model instantiated with Go's tables *)
+Definition m_binary_doc_metas := binary_doc_metas go_is_letter go_is_number go_to_lower.
+Definition m_binary_query := binary_query go_is_letter go_is_number go_to_lower.
+Definition K_f : list N := [102].
+Definition wire_mapping (t : ttype) (fmax : N) : mapping := [(K_f, (t, [([], t, fmax)]))].
+Definition wire_doc (v : list N) : jval := JObj [(K_f, JLeaf (Some v))] [].
+(* the configuration as the PROPERTY reads it, straight from the flags (no constructor, no map in between) *)
+Definition prop_cfg (f : flags) : icfg :=
+  ICfg (flagCaseSensitive f) (flagPartialFieldIndexing f) (flagMaxTokenSize f) 32768.
+
 Inductive case :=
 (* real tokenizer of type t, configuration c, per-field size fmax (0 = default) on value v emitted
    the token values toks; qs = observations for the queries the harness derived from v, parsed by
@@ -153,7 +163,17 @@ Inductive case :=
          (toks : list (list N))
 (* multi-type field: the real bulk processor on {"key": v} with the titles `all` (in this order) emitted the meta
    `meta`; per_title = what the REAL tokenizer of each title emits on a fresh copy of the ORIGINAL value *)
-| CMulti (c : icfg) (all : list mtype) (key v : list N) (per_title : list (list (list N))) (meta : list token).
+| CMulti (c : icfg) (all : list mtype) (key v : list N) (per_title : list (list (list N))) (meta : list token)
+(* ---- the WIRING (extension): the indexer is built by the production constructor bulk.NewIngestor from the
+   configuration startProxy() makes of the flags f; conf.CaseSensitive is set the way main() sets it. The document
+   {"f": v} (v = the bytes insaneJSON hands to the indexer) with the mapping {f: t, MaxSize fmax} went through
+   Ingestor.ProcessDocuments; meta = ALL tokens of the one meta the storage client received (decompressed,
+   unmarshalled). qs = the property's queries on `f` (parser in the binary's case mode), ex = the parser's
+   literals for `_exists_:f` and the matcher's verdict over the meta's `_exists_` tokens *)
+| CWire (legacy : bool) (f : flags) (t : ttype) (fmax : N) (v : list N) (meta : list token) (qs : list qobs)
+        (ex : option (list (list term)) * bool)
+(* a whole generated document through the same production path: all metas *)
+| CWireDoc (f : flags) (m : mapping) (doc : jval) (metas : list (list token)).
 
 Definition q_str (q : qobs) := fst (fst q).
 Definition q_lits (q : qobs) := snd (fst q).
@@ -203,6 +223,21 @@ Fixpoint case_agrees (c : case) : bool :=
   | CMulti c all key v per_title meta =>
       list_eqb token_eqb ((K_ALL, []) :: m_index_types c all key (Some v)) meta
       && list_eqb (list_eqb bytes_eqb) (map (fun mt : mtype => let '(_, ty, mx) := mt in m_tokenize ty c mx v) all) per_title
+  | CWire legacy f t fmax v meta qs ex =>
+      let toks := field_tokens meta K_f in
+      list_eqb (list_eqb token_eqb) (m_binary_doc_metas f (wire_mapping t fmax) (wire_doc v)) [meta]
+      && forallb (fun q =>
+           option_eqb lits_eqb (m_binary_query legacy f t (q_str q)) (q_lits q)
+           && match q_lits q with
+              | Some ls => Bool.eqb (query_finds ls toks) (q_found q)
+              | None => negb (q_found q)
+              end) qs
+      && option_eqb lits_eqb (m_query TyKeyword true K_f) (fst ex)
+      && match fst ex with
+         | Some ls => Bool.eqb (query_finds ls (field_tokens meta K_EXISTS)) (snd ex)
+         | None => negb (snd ex)
+         end
+  | CWireDoc f m doc metas => list_eqb (list_eqb token_eqb) (m_binary_doc_metas f m doc) metas
   end.
 
 (* the fields of a document as the property describes them (executable form of [reach]): into objects, tag
@@ -238,6 +273,28 @@ Fixpoint reach_list (m : mapping) (name : list N) (n : jval) {struct n} : list (
   | _ => []
   end.
 
+(* the spec of a document's metas (CDoc, CWireDoc) *)
+Definition doc_spec_ok (m : mapping) (doc : jval) (metas : list (list token)) : bool :=
+      (* every meta starts with _all_; every token indexed under a title has `_exists_:title` in the same
+         meta; every nested meta carries all tokens of the parent *)
+      match metas with
+      | [] => false
+      | parent :: nested =>
+        forallb (fun mt => match mt with (k, []) :: _ => bytes_eqb k K_ALL | _ => false end) metas
+        && forallb (fun mt => forallb (fun t : token =>
+                      bytes_eqb (fst t) K_ALL || bytes_eqb (fst t) K_EXISTS
+                      || existsb (token_eqb (K_EXISTS, fst t)) mt) mt) metas
+        && forallb (fun mt => forallb (fun t => existsb (token_eqb t) mt) (tl parent)) nested
+        (* every field the document has, every title of its mapping entry with a tokenizer: `_exists_:title`
+           is in some meta *)
+        && forallb (fun fx : list N * option (list N) =>
+             forallb (fun mt : mtype =>
+               let '(title, ty, _) := mt in
+               negb (has_tokenizer ty)
+               || existsb (fun meta => existsb (token_eqb (K_EXISTS, title_of title (fst fx))) meta) metas)
+               (snd (mlookup m (fst fx)))) (reach_list m [] doc)
+      end.
+
 (* implementation output satisfies the property (independent of the model's tokenizers):
    - the queries are exactly those the property names (whole value / each word / each leading path
      of the part within the size limit; none when the value is skipped),
@@ -257,26 +314,7 @@ Definition case_spec_ok (c : case) : bool :=
   | CQuery _ _ _ _ => true
   | CExists title lits found =>
       found && match lits with Some ls => query_finds ls [title] | None => false end
-  | CDoc m c doc metas =>
-      (* every meta starts with _all_; every token indexed under a title has `_exists_:title` in the same
-         meta; every nested meta carries all tokens of the parent *)
-      match metas with
-      | [] => false
-      | parent :: nested =>
-        forallb (fun mt => match mt with (k, []) :: _ => bytes_eqb k K_ALL | _ => false end) metas
-        && forallb (fun mt => forallb (fun t : token =>
-                      bytes_eqb (fst t) K_ALL || bytes_eqb (fst t) K_EXISTS
-                      || existsb (token_eqb (K_EXISTS, fst t)) mt) mt) metas
-        && forallb (fun mt => forallb (fun t => existsb (token_eqb t) mt) (tl parent)) nested
-        (* every field the document has, every title of its mapping entry with a tokenizer: `_exists_:title`
-           is in some meta *)
-        && forallb (fun fx : list N * option (list N) =>
-             forallb (fun mt : mtype =>
-               let '(title, ty, _) := mt in
-               negb (has_tokenizer ty)
-               || existsb (fun meta => existsb (token_eqb (K_EXISTS, title_of title (fst fx))) meta) metas)
-               (snd (mlookup m (fst fx)))) (reach_list m [] doc)
-      end
+  | CDoc m c doc metas => doc_spec_ok m doc metas
   | CKnown _ => true
   (* form independence on the real ASTs: the member made from the value is the plain form's literals, and
      the in-query finds the document *)
@@ -307,6 +345,23 @@ Definition case_spec_ok (c : case) : bool :=
                         if has_tokenizer ty then map (pair (title_of title key)) toks ++ [(K_EXISTS, title_of title key)]
                         else []) (combine all per_title)))
       && Nat.eqb (length all) (length per_title)
+  (* the property under the binary's configuration, read off the FLAGS (independent of the model's wiring and
+     tokenizers): the meta is `_all_`, tokens of f, `_exists_:f`; the queries are those the property names for the
+     flags' own case mode / partial flag / token size; each parsed and found the document; a skipped value left no
+     token; every indexed token is reached by one of the queries; `_exists_:f` finds the document *)
+  | CWire _ f t fmax v meta qs ex =>
+      let toks := field_tokens meta K_f in
+      let c := prop_cfg f in
+      list_eqb token_eqb meta ((K_ALL, []) :: map (pair K_f) toks ++ [(K_EXISTS, K_f)])
+      && list_eqb bytes_eqb (map q_str qs) (m_spec_queries t c fmax v)
+      && forallb (fun q => match q_lits q with Some _ => q_found q | None => false end) qs
+      && (if m_skipped t c fmax v then negb (nonempty toks) else true)
+      && forallb (fun tok =>
+           existsb (fun q => match q_lits q with
+                             | Some ls => existsb (fun l => lit_matches l tok) ls
+                             | None => false end) qs) toks
+      && snd ex && match fst ex with Some ls => query_finds ls [K_f] | None => false end
+  | CWireDoc _ m doc metas => doc_spec_ok m doc metas
   end.
 
 Definition diff_indices (l : list case) : list nat := bad_indices (fun c => negb (case_agrees c)) l.
